@@ -872,9 +872,17 @@ func (fr *Frame) callBuiltin(st *State, b *ssa.Builtin, c *ssa.CallCommon, args 
 		}
 		return []*Val{r}
 	case "delete":
-		fr.mapDelete(st, args[0], args[1])
+		fr.mapDelete(st, args[0], args[1], pos)
 		return nil
 	case "clear":
+		// modelled as "anything may have changed"; the frame must allow the write
+		if _, isMap := under(args[0].Ty).(*types.Map); isMap {
+			fr.mapFrameCheck(st, args[0], x.mapInfo(args[0].Ty), pos)
+		} else if x.top != nil && x.top.contract != nil && x.noObl == 0 {
+			if ok, _ := x.frameAllow("*"); !ok {
+				x.oblige(st, "frame", "clear "+x.w.nodeTextAt(pos), pos, "false", nil, false)
+			}
+		}
 		x.havocAllHeaps(st)
 		return nil
 	case "print", "println", "close":
